@@ -114,3 +114,142 @@ pub(crate) fn mk(ref_cnt: usize) -> State {
 pub(crate) fn ref_cnt(s: &State) -> usize {
     s.ref_cnt
 }
+
+// ------------------------------------------------------------ C11 / C10: one-step simulation of rt::Arc
+
+use crate::rt::execution::verif as ev;
+use crate::rt::scheduler::verif as sched;
+use crate::rt::synchronize::verif as sv;
+use crate::rt::thread::verif as tv;
+
+fn eq(a: &Raw, b: &Raw) -> bool {
+    le(a, b) && le(b, a)
+}
+
+/// World: 2 threads, one Arc object (object 0) with a symbolic count 1..=3 and
+/// a symbolic release view; `acting` runs.
+fn world(acting: usize) -> (crate::rt::Execution, Arc, usize, Raw) {
+    let mut e = ev::mk_exec(2, 1, None);
+    tv::activate(&mut e.threads, acting);
+    let n: usize = kani::any();
+    kani::assume(n >= 1 && n <= 3);
+    let sync: Raw = kani::any();
+    let mut st = mk(n);
+    st.synchronize = sv::mk(sync);
+    let r = e.objects.insert(st);
+    let mut t = 0;
+    while t < 2 {
+        let c: Raw = kani::any();
+        tv::th(&mut e.threads, t).causality = vv(c);
+        t += 1;
+    }
+    (e, Arc { state: r }, n, sync)
+}
+
+fn clock(e: &crate::rt::Execution, t: usize) -> Raw {
+    vv_raw(&tv::th_ref(&e.threads, t).causality)
+}
+
+/// After the real operation ran as the first scheduling point of the path
+/// (path id 0), is it reported as the last dependent access of a following
+/// action of class `c`?
+fn reported_for(e: &crate::rt::Execution, a: &Arc, c: u8) -> bool {
+    match a.state.get(&e.objects).last_dependent_access(act(c)) {
+        Some(acc) => acc.path_id() == 0,
+        None => false,
+    }
+}
+
+vharness! {
+    /// @prop C11,C10 @tier quick @mode fast @cost 2 @funcs Arc::ref_inc,Arc::branch,Ref::branch_action,Execution::schedule,arc::State::set_last_access @bounds 2 threads, count 1..3, all clock values, thread 1 acting
+    /// clone: the count grows by one, no view is transferred; the clone is a dependent access for a following inspection and for nothing else.
+    #[cfg_attr(kani, kani::unwind(8))]
+    fn arc_clone_t1() {
+        let acting = 1;
+        let (mut e, a, n, sync) = world(acting);
+        let c = [clock(&e, 0), clock(&e, 1)];
+        sched::enter(&mut e, || a.ref_inc(Location::disabled()));
+        assert!(ref_cnt(a.state.get(&e.objects)) == n + 1);
+        assert!(eq(&clock(&e, 0), &c[0]) && eq(&clock(&e, 1), &c[1]));
+        assert!(eq(&sv::raw(&a.state.get(&e.objects).synchronize), &sync));
+        assert!(reported_for(&e, &a, 2));
+        assert!(!reported_for(&e, &a, 0) && !reported_for(&e, &a, 1));
+        assert!(sched::switches() == 0);
+        kani::cover!(n == 3, "count 3 -> 4");
+        std::mem::forget(e);
+    }
+}
+
+vharness! {
+    /// @prop C11,C10 @tier quick @mode fast @cost 2 @funcs Arc::ref_dec,Synchronize::sync_store,Synchronize::sync_load @bounds 2 threads, count 1..3, all clock values, thread 0 acting
+    /// drop of a handle: the count shrinks by one; `true` is returned exactly by the decrement that reaches zero; every drop releases its view into the Arc and the final drop acquires all of them (earlier drops happen-before the destruction); a drop is a dependent access for following drops and inspections.
+    #[cfg_attr(kani, kani::unwind(8))]
+    fn arc_drop_t0() {
+        let acting = 0;
+        let (mut e, a, n, sync) = world(acting);
+        let c = [clock(&e, 0), clock(&e, 1)];
+        let last = sched::enter(&mut e, || a.ref_dec(Location::disabled()));
+        assert!(ref_cnt(a.state.get(&e.objects)) == n - 1);
+        assert!(last == (n == 1));
+        let rel = max_raw(&sync, &c[acting]);
+        assert!(eq(&sv::raw(&a.state.get(&e.objects).synchronize), &rel));
+        if last {
+            assert!(eq(&clock(&e, acting), &rel));
+        } else {
+            assert!(eq(&clock(&e, acting), &c[acting]));
+        }
+        assert!(eq(&clock(&e, 1), &c[1]));
+        assert!(reported_for(&e, &a, 1) && reported_for(&e, &a, 2));
+        assert!(!reported_for(&e, &a, 0));
+        kani::cover!(last && !le(&sync, &c[acting]), "final drop acquires an earlier drop's view");
+        kani::cover!(!last, "non-final drop");
+        std::mem::forget(e);
+    }
+}
+
+vharness! {
+    /// @prop C11 @tier quick @mode fast @cost 2 @funcs Arc::get_mut,Synchronize::sync_load @bounds 2 threads, count 1..3, all clock values, thread 1 acting
+    /// get_mut / try_unwrap check: succeeds exactly when the count is 1, acquires the views released by earlier drops when it succeeds (and never more than that), leaves the count alone, and is a dependent access for a following drop.
+    #[cfg_attr(kani, kani::unwind(8))]
+    fn arc_get_mut_t1() {
+        let acting = 1;
+        let (mut e, a, n, sync) = world(acting);
+        let c = [clock(&e, 0), clock(&e, 1)];
+        let unique = sched::enter(&mut e, || a.get_mut(Location::disabled()));
+        assert!(unique == (n == 1));
+        assert!(ref_cnt(a.state.get(&e.objects)) == n);
+        let full = max_raw(&sync, &c[acting]);
+        if unique {
+            assert!(eq(&clock(&e, acting), &full));
+        } else {
+            assert!(le(&c[acting], &clock(&e, acting)) && le(&clock(&e, acting), &full));
+        }
+        assert!(eq(&clock(&e, 0), &c[0]));
+        assert!(eq(&sv::raw(&a.state.get(&e.objects).synchronize), &sync));
+        // a following drop by another thread must be explored in both orders
+        assert!(reported_for(&e, &a, 1));
+        kani::cover!(unique && !le(&sync, &c[acting]), "unique owner acquires earlier drops");
+        kani::cover!(!unique, "not unique");
+        std::mem::forget(e);
+    }
+}
+
+vharness! {
+    /// @prop C11 @tier quick @mode fast @cost 2 @funcs Arc::strong_count,Synchronize::sync_load @bounds 2 threads, count 1..3, all clock values, thread 0 acting
+    /// strong_count returns the modelled count, leaves it alone, and is a dependent access for following clones and drops (both orders get explored).
+    #[cfg_attr(kani, kani::unwind(8))]
+    fn arc_strong_count_t0() {
+        let acting = 0;
+        let (mut e, a, n, sync) = world(acting);
+        let c = [clock(&e, 0), clock(&e, 1)];
+        let got = sched::enter(&mut e, || a.strong_count());
+        assert!(got == n);
+        assert!(ref_cnt(a.state.get(&e.objects)) == n);
+        let full = max_raw(&sync, &c[acting]);
+        assert!(le(&c[acting], &clock(&e, acting)) && le(&clock(&e, acting), &full));
+        assert!(eq(&clock(&e, 1), &c[1]));
+        assert!(reported_for(&e, &a, 0) && reported_for(&e, &a, 1));
+        kani::cover!(n == 2, "count 2");
+        std::mem::forget(e);
+    }
+}
